@@ -19,7 +19,9 @@ RULE = ("random terms prefactor * numerator(linear in orbital energies, "
         "orbital-energy brackets (2/4/6 energies, exponents 1-2, either "
         "overall sign; every fourth term without denominator and with a "
         "remainder symmetric in target indices); operations: split+rebuild, canonicalize_sign "
-        "(both modes), permute_num, cancel_orb_energy_frac, factor_eri_parts,"
+        "(both modes), permute_num, denom_eri_sym (reported common "
+        "symmetries, also with antisymmetric denominators), "
+        "cancel_orb_energy_frac, factor_eri_parts,"
         " factor_denom, use_symbolic_denominators / use_explicit_denominators"
         " (both directions), diagonalize_fock, block_diagonalize_fock. "
         "Non-trivial: denominator present; distinct by (operation, input)")
@@ -168,6 +170,48 @@ def run(ctx):
                      sample={"op": op, "term": str(term)[:250],
                              "result": str(getattr(res, "sympy", res))[:250]},
                      kind=op)
+
+    # ---- A': common symmetry of remainder and denominator (denom_eri_sym),
+    #      also for denominators that are ANTIsymmetric under a permutation
+    #      (e_i - e_j, e_a - e_b); pointwise statement: all indices free ----
+    from adcgen.sympy_objects import Amplitude as _Amp
+    occ, virt = G.pool("o", 6), G.pool("v", 6)
+    i_, j_, k_ = occ[:3]
+    a_, b_, c_ = virt[:3]
+    rems = [AntiSymmetricTensor("V", (i_, j_), (a_, b_), 1),
+            _Amp("t1", (a_, b_), (i_, j_)),
+            AntiSymmetricTensor("V", (i_, j_), (a_, b_), 1)
+            * NonSymmetricTensor("X", (k_, c_)),
+            AntiSymmetricTensor("V", (i_, k_), (a_, c_), 1)
+            * _Amp("t1", (b_, c_), (j_, k_))]
+    dens = [e_(i_) - e_(j_), e_(a_) - e_(b_),
+            e_(i_) + e_(j_) - e_(a_) - e_(b_), e_(i_) - e_(a_),
+            (e_(i_) - e_(j_)) * (e_(a_) - e_(b_)),
+            (e_(i_) - e_(j_)) ** 2, (e_(a_) - e_(b_)) ** 3]
+    for rem_ in rems:
+        for den_ in dens:
+            term = G.random_coef(rng) * rem_ / den_
+            allidx = sorted(term.atoms(Index), key=lambda s_: s_.name)
+            try:
+                eo_ = EriOrbenergy(Expr(term).terms[0])
+                sym_ = eo_.denom_eri_sym()
+            except Exception as ex:
+                ctx.violation(f"C13:denom_eri_sym:exception:{str(term)[:120]}",
+                              f"denom_eri_sym raised {ex!r}",
+                              {"term": str(term)}, False)
+                continue
+            for perms_, f_ in sym_.items():
+                if f_ is None:
+                    continue
+                perm_t = term
+                for p1, p2 in perms_:
+                    perm_t = perm_t.xreplace({p1: p2, p2: p1})
+                add("denom_eri_sym", Expr(perm_t, target_idx=allidx),
+                    Expr(f_ * term, target_idx=allidx), allidx)
+                ctx.case(key=("denom_eri_sym", str(term), str(perms_)),
+                         nontrivial=True, kind="denom_eri_sym",
+                         sample={"term": str(term)[:200],
+                                 "perms": str(perms_), "factor": str(f_)})
 
     # ---- B: grouping ------------------------------------------------------
     for k in range(n // 2):
